@@ -343,6 +343,62 @@ func c02(args []string) error {
 						}
 					}
 				}
+				// the same vote objects go into several certificates (a retry, a second leader): every one of them is honest and must
+				// be accepted, and an earlier one must still be accepted after the later ones were assembled
+				if n >= 2 && q >= 2 {
+					var pool []hotstuff.PartialCert
+					for i := 0; i < n; i++ {
+						if pc, err := signers[i].Auth.CreatePartialCert(w.Blocks["B1"]); err == nil {
+							pool = append(pool, pc)
+						}
+					}
+					type made struct {
+						qc  hotstuff.QuorumCert
+						who []int
+						tag string
+					}
+					var mades []made
+					build := func(tag string, idx []int) {
+						var pcs []hotstuff.PartialCert
+						var who []int
+						for _, i := range idx {
+							pcs = append(pcs, pool[i])
+							who = append(who, i+1)
+						}
+						qc, err := signers[0].Auth.CreateQuorumCert(w.Blocks["B1"], pcs)
+						if err != nil {
+							abs := hx.AbsQC{Hash: "B1", View: 1, BlockView: 1, Known: true, Sig: w.GoodSig(who, hx.BlockMsg("B1"))}
+							for _, v := range verifiers {
+								o.emit(obj{"kind": "qc", "n": n, "scheme": scheme, "cache": v.cache, "mut": tag, "honest": true, "qc": abs, "ok": false, "panic": "", "err": "CreateQuorumCert: " + err.Error()})
+							}
+							return
+						}
+						mades = append(mades, made{qc, who, tag})
+					}
+					if len(pool) == n {
+						first := seqInts(0, q-1)
+						build("reuse-first", first)
+						second := append([]int{}, first...)
+						if n > q {
+							second = append(second[1:], q) // shares all but one vote with the first
+						}
+						rng.Shuffle(len(second), func(i, j int) { second[i], second[j] = second[j], second[i] })
+						build("reuse-second", second)
+						build("reuse-all", rng.Perm(n))
+						for round := 0; round < 2; round++ { // everything is verified after everything was assembled, twice
+							for _, m := range mades {
+								abs := hx.AbsQC{Hash: "B1", View: int(m.qc.View()), BlockView: 1, Known: true, Sig: w.GoodSig(hx.IDs(m.qc.Signature().Participants()), hx.BlockMsg("B1"))}
+								if len(hx.IDs(m.qc.Signature().Participants())) != len(m.who) {
+									abs.Sig = w.GoodSig(m.who, hx.BlockMsg("B1")) // (the claimed set no longer matches who was combined: still judged as the honest certificate it is)
+								}
+								for _, v := range verifiers {
+									ok, pan, et := verdict(func() error { return v.auth.VerifyQuorumCert(m.qc) })
+									o.emit(obj{"kind": "qc", "n": n, "scheme": scheme, "cache": v.cache, "mut": m.tag, "honest": true, "qc": abs, "ok": ok, "panic": pan, "err": et})
+								}
+							}
+						}
+					}
+				}
 				for _, sc := range sigMutations(w, rng, n, q, mB("B1"), mB("B2")) {
 					emitQC(sc.mut, false, hx.AbsQC{Hash: "B1", View: 1, BlockView: 1, Known: true, Sig: sc.sig})
 				}
